@@ -57,7 +57,10 @@ def gen_op(rng, small=False):
     if r < 0.04:
         return dict(t='call', f='sys_solve', args=[rng.choice([2, 3]), rng.choice([0, 1]), rng.random() < 0.5], kw={})
     if r < 0.62:
-        f = rng.choice(['f_scalar', 'f_scalar', 'f_dict', 'f_nutils', 'f_kw', 'f_kw', 'f_fails', 'f_nested', 'f_silent'] + ([] if small else ['f_big']))
+        f = rng.choice(['f_scalar', 'f_scalar', 'f_dict', 'f_nutils', 'f_kw', 'f_kw', 'f_fails', 'f_nested', 'f_silent', 'f_arr', 'f_arr'] + ([] if small else ['f_big']))
+        if f == 'f_arr':
+            from . import c18_funcs as F
+            return dict(t='call', f=f, args=[{'arr': [rng.choice(sorted(F._BASES)), rng.choice(F.ARR_VARIANTS)]}], kw=({} if rng.random() < 0.7 else {'w': rng.choice([1, 2])}))
         if f == 'f_scalar':
             a = rng.choice([1, 2])
             form = rng.randrange(4)
@@ -138,6 +141,9 @@ def gen_case(rng, index, tier):
                         v['args'] = v['args'][:1]
                 else:
                     v['args'][1] = rng.choice([4, 5])
+            elif v['f'] == 'f_arr':
+                from . import c18_funcs as F
+                v['args'][0] = {'arr': [v['args'][0]['arr'][0], rng.choice([x for x in F.ARR_VARIANTS if x != v['args'][0]['arr'][1]])]}
             elif v['args']:
                 v['args'][0] = v['args'][0] + 1
         else:
@@ -242,7 +248,7 @@ def perform(op, cachedir):
     with treelog.set(tr), ctx:
         try:
             if op['t'] == 'call':
-                v = F.FUNCS[op['f']](*op['args'], **op['kw'])
+                v = F.FUNCS[op['f']](*[F.decode_arg(a) for a in op['args']], **{k: F.decode_arg(v) for k, v in op['kw'].items()})
                 rec = ['value', v]
             else:
                 it = iter(F.RECS[op['r']](*op['args']))
